@@ -102,6 +102,11 @@ def scenarios():
         SC("reader-keep-vs-rekeep-of-its-input", [k("/c7/p", "s_text")], [k("/c7/r", "s_reader"), k("/c7/p", "s_text_v2")], [[("reader", T), ("reader", T2)], [T2]],
            {("/c7/p", "data"): [T2], ("/c7/r", "data"): [("reader", T), ("reader", T2)]}, [(k("/c7/p", "s_text"), [T]), (k("/c7/r", "s_reader"), [("reader", T)]), (k("/c7/p", "s_text_v2"), [T2]), (k("/c7/r", "s_reader"), [("reader", T2)])]),
     ] + [
+        # the blobs were cleaned away while the data directory kept its (now dangling) links: a reader (which may fail) and a
+        # writer that computes the result again - what the writer returned and committed is served afterwards
+        SC("load-vs-keep-after-blobs-were-emptied", [k("/c7/p", "s_text"), k("/c7/q", "s_obj"), scen.act_empty_internal()], [ld("/c7/p"), k("/c7/p", "s_text")], [[T], [T]], {("/c7/p", "data"): [T]},
+           [(ld("/c7/p"), [T]), (k("/c7/p", "s_text"), [T])], may_fail=(0,)),
+    ] + [
         # both processes register the same user file codec for dict results before they keep; one of them is a session that
         # had kept a dict result before registering it: blob and metadata written by the two must still belong together
         SC("same-keep-user-codec-registered-late-in-one-process", [], [scen.act_keep_user_codec("/c7/u", "s_dict", earlier="s_dict_earlier"), scen.act_keep_user_codec("/c7/u", "s_dict")], [[E["s_dict"]], [E["s_dict"]]], {},
